@@ -66,7 +66,9 @@ def check_slice(dset, kinds, slices, rec, case):
             rec.violation('slice-raised-' + type(err).__name__,
                           f'{tag}: {err!r}', case)
         else:
-            rec.count('empty_selection_raised')
+            # an empty selection has a result too: an empty dataset
+            rec.violation('empty-selection-raised-' + type(err).__name__,
+                          f'{tag}: {err!r}', case)
         return None
     if snapshot.digest(dset) != d_0:
         rec.violation('slice-modified-original', tag, case)
